@@ -33,10 +33,11 @@ def write_package(flowir, location: str, extra_files: Optional[Dict[str, str]] =
 
 def experiment_from_package_path(package_path: str, location: str, variable_files: Optional[List[str]] = None,
                                  platform: Optional[str] = None, inputs=None, data=None, validate=True,
-                                 checkExecutables=False, **kw):
+                                 checkExecutables=False, manifest=None, **kw):
     import experiment.model.data
     import experiment.model.storage
-    pkg = experiment.model.storage.ExperimentPackage.packageFromLocation(package_path, platform=platform)
+    pkg = experiment.model.storage.ExperimentPackage.packageFromLocation(package_path, platform=platform,
+                                                                         **({"manifest": manifest} if manifest else {}))
     exp = experiment.model.data.Experiment.experimentFromPackage(
         pkg, location=location, variable_files=variable_files, inputs=inputs, data=data, platform=platform, **kw)
     if validate:
@@ -45,7 +46,8 @@ def experiment_from_package_path(package_path: str, location: str, variable_file
 
 
 def experiment_from_flowir(flowir, location: str, extra_files=None, variable_files=None, platform=None,
-                           inputs=None, data=None, validate=True, checkExecutables=False, is_flowir=True, **kw):
+                           inputs=None, data=None, validate=True, checkExecutables=False, is_flowir=True,
+                           manifest=None, **kw):
     package_path = write_package(flowir, location, extra_files, is_flowir=is_flowir)
     return experiment_from_package_path(package_path, location, variable_files, platform, inputs, data, validate,
-                                        checkExecutables, **kw)
+                                        checkExecutables, manifest=manifest, **kw)
